@@ -32,6 +32,10 @@ def decorate(rng, v):
         v["ser"] = [[120, 48 + rng.randrange(10)]]
     elif r < 0.55:
         v["docs"] = [[32, 100]]
+    elif r < 0.65:
+        v["aci"] = rng.choice([0, 1])           # consumed by EnumString only; every other derive must ignore it
+    elif r < 0.72:
+        v["xattrs"] = ["#[allow(dead_code)]"]    # a non-strum attribute next to the strum ones
     return v
 
 
